@@ -36,7 +36,8 @@ SCOPE_EXTRA = {"mingus.midi.midi_file_out", "mingus.midi.midi_track", "mingus.mi
 # (module, function qualname, parameter) -> reason
 PARAM_MUTATION_EXCEPTIONS = {
     ("mingus.core.intervals", "invert", "interval"): "reverse / copy / reverse: net effect zero (decided semantically by R-C03-7)",
-    ("mingus.core.chords", "from_shorthand", "slash"): "internal recursion parameter: documented 'should not be given'; the only in-package call site passes the fresh result of a recursive call",
+    # '*': whichever function of the module threads the accumulator (from_shorthand and the helper it recurses through)
+    ("mingus.core.chords", "*", "slash"): "internal recursion parameter: documented 'should not be given'; the only in-package call sites pass the fresh result of a recursive call",
     ("mingus.core.chords", "determine_extended_chord5.<locals>.inversion_exhauster", "polychords"): "nested helper, called with a fresh [] by its parent",
     ("mingus.core.chords", "determine_extended_chord6.<locals>.inversion_exhauster", "polychords"): "nested helper, called with a fresh [] by its parent",
     ("mingus.core.chords", "determine_extended_chord7.<locals>.inversion_exhauster", "polychords"): "nested helper, called with a fresh [] by its parent",
@@ -108,12 +109,37 @@ def attr_mutation_sites(repo, attr):
     return sites
 
 
+def _mutable_class_names(repo):
+    """Names of the package's classes whose objects are edited in place by their own methods."""
+    out = set()
+    for m in repo.modules.values():
+        for ci in m.classes.values():
+            for mname, fi in ci.methods.items():
+                if mname == "__init__":
+                    continue
+                if any(isinstance(t, ast.Attribute) and isinstance(t.value, ast.Name) and t.value.id == "self"
+                       for n in ast.walk(fi.node) if isinstance(n, (ast.Assign, ast.AugAssign))
+                       for t in (n.targets if isinstance(n, ast.Assign) else [n.target])):
+                    out.add(ci.name)
+                    break
+    return out
+
+
+def holds_mutable_instances(val, mutable_names):
+    """A tuple display (immutable itself) whose elements are new objects of a class that is edited in place:
+    range = (Note('C', 0), Note('C', 8)) -- every instance that does not replace it shares those two Notes."""
+    if not isinstance(val, ast.Tuple):
+        return False
+    return any(isinstance(n, ast.Call) and isinstance(n.func, ast.Name) and n.func.id in mutable_names for e in val.elts for n in ast.walk(e))
+
+
 def rule_class_defaults(ctx, repo, mods, R, report=True):
     count = 0
+    mutable_names = _mutable_class_names(repo)
     for m in mods:
         for ci in m.classes.values():
             for attr, val in ci.attrs.items():
-                if not fx.is_mutable_display(val):
+                if not fx.is_mutable_display(val) and not holds_mutable_instances(val, mutable_names):
                     continue
                 count += 1
                 init = repo.find_method(ci, "__init__")
@@ -133,7 +159,7 @@ def rule_class_defaults(ctx, repo, mods, R, report=True):
                               "class-level mutable default %s.%s is not rebound by __init__ on every path%s: "
                               "all instances (and the class) share one object" % (ci.name, attr, (" and is mutated in place at %s" % [
                                   "%s: %s" % (sm.where(sn), short(sn, 50)) for sm, sn in sites[:3]]) if sites else
-                                  " although it is a per-object slot (assigned through self elsewhere): editing one object's list edits the class's"),
+                                  " although it is a per-object slot (assigned through self elsewhere): editing one object's value in place edits the class's"),
                               rebound_by_init=rebound)
                 elif not ok:
                     ctx.held(R, "fixture:class-default %s.%s" % (ci.name, attr), m.where(ci.attr_nodes[attr]))
@@ -279,7 +305,7 @@ def rule_param_mutation(ctx, repo, mods, R, report=True, exceptions=PARAM_MUTATI
             sites = fx.mutation_sites(fi, alias)
             bad = []
             for p, kind, node in sites:
-                if (m.name, qn, p) in exceptions:
+                if (m.name, qn, p) in exceptions or (m.name, "*", p) in exceptions:
                     continue
                 # the name was rebound to a fresh copy before the mutation
                 names = [a for a, pp in alias.items() if pp == p]
@@ -300,7 +326,11 @@ def rule_param_mutation(ctx, repo, mods, R, report=True, exceptions=PARAM_MUTATI
     # the exception rows must still match something (a stale exception hides nothing, but must be noticed)
     if report:
         for (mn, qn, p), reason in exceptions.items():
-            if mn in repo.modules and qn in repo.modules[mn].functions:
+            if qn == "*" and mn in repo.modules:
+                hit = any(p in f_.params and fx.mutation_sites(f_, fx.param_aliases(f_, [p])) for f_ in repo.modules[mn].functions.values() if not isinstance(f_.node, ast.Lambda))
+                if not hit:
+                    ctx.note(R, "exception row (%s, *, %s) no longer matches any mutation: %s" % (mn, p, reason))
+            elif mn in repo.modules and qn in repo.modules[mn].functions:
                 fi = repo.modules[mn].functions[qn]
                 alias = fx.param_aliases(fi, [p]) if p in fi.params else {}
                 if not fx.mutation_sites(fi, alias):
